@@ -129,6 +129,7 @@ def plan(tier):
     shards += [{"family": "d2", "part": p, "parts": parts} for p in range(parts)]
     shards += [{"family": "sinks", "part": p, "parts": 4} for p in range(4)]
     shards += H.plan_shards(['nested-revisions'])
+    shards.append({"family": "strict-sinks"})
     return shards
 
 
@@ -140,6 +141,10 @@ def cases(shard, tier):
         yield from H.cases_of(shard)
         return
     fam = shard["family"]
+    if fam == "strict-sinks":
+        for i in range(len(STRICT_SINKS)):
+            yield {"kind": "strict-sink", "i": i}
+        return
     if fam == "d1full" or fam == "sinks":
         gen = depth1(LITS_FULL)
     elif fam in ("idents1", "idents2"):
@@ -461,7 +466,45 @@ def check_sinks(case, R: engine.Acc):
             R.violation("sink-assert:" + opsig(t), "@assert on the mathematical value holds", one, observed=err, expected="%s == %s" % (src, lit_expected))
 
 
+# sinks whose admissible values are restricted: what reaches them must be the EXACT value of the expression (never floored / rounded /
+# re-encoded), so a non-integer where an integer is required, or a character that is not one ASCII character, is rejected
+STRICT_SINKS = (
+    [("@extent %s\n" % e, ok, 8 * 8 if ok else None) for e, ok in [("64", True), ("128 / 2", True), ("64.0", True), ("6.4e1", True), ("64.5", False), ("129 / 2", False), ("64 + 1/3", False), ("2**6 + 2**-2", False), ("8 * 8.1", False), ("640e-1", True), ("645e-1", False), ("193 / 3", False), ("-1 / 2", False)]]
+    + [("uint8[%s] a\n@sealed\n" % e, ok, None) for e, ok in [("2", True), ("4 / 2", True), ("2.0", True), ("2.5", False), ("5 / 2", False), ("<=5 / 2", False), ("<=2.5", False), ("<7 / 2", False), ("<=6 / 2", True), ("2 + 2**-60", False)]]
+    + [("uint8 X = %s\n@sealed\n" % e, ok, v) for e, ok, v in [("'a'", True, 97), ("'\u007f'", True, 127), ("'\u0080'", False, None), ("'\u00ff'", False, None), ("'\u00e9'", False, None), ("'' + '\u00ff'", False, None), ("'' + 'a'", True, 97), ("'a' + ''", True, 97),
+                                                                 ("'ab'", False, None), ("''", False, None), ("'\u0100'", False, None), ("'\u20ac'", False, None), ("'\\u007f'", True, 127), ("'\\u00ff'", False, None), ("255", True, 255), ("255.0", True, 255), ("255.5", False, None), ("511 / 2", False, None), ("510 / 2", True, 255)]]
+    + [("uint16 X = %s\n@sealed\n" % e, ok, None) for e, ok in [("'a'", False), ("97", True)]]
+    + [("int8 X = %s\n@sealed\n" % e, ok, None) for e, ok in [("'a'", False), ("-128", True), ("-128.5", False), ("-257 / 2", False)]]
+    + [("bool X = %s\n@sealed\n" % e, ok, None) for e, ok in [("true", True), ("1", False), ("'a'", False), ("1 == 1", True)]]
+)
+
+
+def check_strict_sinks(case, R):
+    text, ok, val = STRICT_SINKS[case["i"]]
+    R.case(["strict-sink", text], nontrivial=True, sample=False)
+    prints, err, res = read_text(text)
+    if ok:
+        if err is not None:
+            R.violation("strict-sink-valid-rejected", "an operand whose exact value is admissible is accepted", case, observed={"error": err, "text": text})
+            return
+        if val is not None:
+            got = res[0].extent if text.startswith("@extent") else [c.value.native_value for c in res[0].constants]
+            if got != (val if text.startswith("@extent") else [Fraction(val)]):
+                R.violation("strict-sink-value", "the sink receives the exact value of the expression", case, observed=str(got), expected=val)
+                return
+        R.outcome("strict-sink-accepted")
+    else:
+        if err is None:
+            R.violation("strict-sink-invalid-accepted", "a non-integer where an integer is required / a string that is not one ASCII character is rejected, never floored, rounded or re-encoded", case, observed={"text": text, "extent": getattr(res[0], "extent", None), "constants": [str(c) for c in res[0].constants]})
+        elif not err["ide"]:
+            R.violation("rejection-not-InvalidDefinitionError:%s@%s" % (err["cls"], err.get("culprit")), "undefined expressions are rejected as invalid definitions", case, observed=err)
+        else:
+            R.outcome("strict-sink-rejected")
+
+
 def check_case(case, R):
+    if case.get("kind") == "strict-sink":
+        return check_strict_sinks(case, R)
     if case.get("kind") == "call-history":
         return H.check_history(case["label"], R, H.project_expressions, 'expression-value-depends-on-earlier-calls', 'constant expressions evaluate to the mathematical value over the definitions of THIS call')
     if case["kind"] == "print":
